@@ -141,6 +141,10 @@ def axis_indices(S, rng, tier):
         keep = [s for s in sl if (s.start in (None, S - 1, S) and s.stop in (None, 0, S, S + 1))
                 or (s.start in (-1, -S - 1) and s.stop in (None, -1))]
         sl = keep + rng.sample(sl, 4)
+    elif len(sl) > 60:
+        keep = [s for s in sl if (s.start in (None, 0, S - 1, S) and s.stop in (None, 0, 1, S, S + 1, -1))
+                or (s.start in (-1, -S - 1) and s.stop in (None, S))]
+        sl = keep + rng.sample(sl, 30)
     return ints, sl
 
 
@@ -247,7 +251,7 @@ def gen_tiles_cases(out, tier):
             add("g_clip:" + kind, f"CGClip {hb} {clist(sel, cpair)} {t}", (key, tuple(sel)))
 
     # regular tilings: exhaustive on one axis
-    nmax = 7 if tier == "quick" else 10
+    nmax = 6 if tier == "quick" else 10
     other_axes = [(5, 2), (1, 1), (7, 7), (3, 4), (0, 2), (6, 3), (9, 4)]
     k = 0
     for N in range(0, nmax + 1):
@@ -504,7 +508,16 @@ def gen_block_cases(out, tier):
             nroi, sq = ba._norm_roi(roi)
             if any(s.stop < s.start for s in nroi):
                 continue
-            res = ba.extract(fill, roi=roi, dtype="int64")
+            try:
+                res = ba.extract(fill, roi=roi, dtype="int64")
+            except Exception as e:  # in-range window of a well-formed assembler: nothing may raise
+                if not any(v["key"] == "c04:assembler-raises" for v in out.violations):
+                    out.violation("c04:assembler-raises", f"extract(roi={roi}) raised {type(e).__name__}: {e}",
+                                  {"predicate": "assembler",
+                                   "args": enc([[chy, chx], pre, post, present, "int64", fill, roi, vi]),
+                                   "observed": f"raised {type(e).__name__}: {e}"})
+                add("ba_extract:raised", "CBExtract [] [] [] [] [] (((0)%Z, (0)%Z), ((0)%Z, (0)%Z)) (0)%Z (Err EOther)", (vi, enc(roi)))
+                continue
             full = roi_shape(nroi)
             res = res.reshape(full)
             nd = len(full)
@@ -583,14 +596,48 @@ def p_index(base, how, idx):
     valid = all(-n <= i < n for i, n in zip(idx, S))
     g = _err(lambda: T[tuple(idx)])
     s = _err(lambda: T.tile_shape(tuple(idx)).yx)
+    c = _err(lambda: (lambda C: (tuple(C.shape.yx), tuple(C.base.yx)))(T.crop(tuple(idx))))
     if not valid:
         ok = g[0] == "IndexError" and s[0] == "IndexError"
-        return ok, f"out of range index {idx} for shape {S}: getitem -> {g}, tile_shape -> {s}"
+        if any(i < -n for i, n in zip(idx, S)):
+            # an index below -shape must not wrap around to some other tile
+            ok = ok and c[0] == "IndexError"
+        return ok, f"out of range index {idx} for shape {S}: getitem -> {g}, tile_shape -> {s}, crop -> {c}"
     pos = tuple(i % n for i, n in zip(idx, S))
     g2 = _err(lambda: T[pos])
     ok = g[0] == "ok" and g == g2 and s[0] == "ok" and \
-        tuple(s[1]) == (g[1][0].stop - g[1][0].start, g[1][1].stop - g[1][1].start)
-    return ok, f"index {idx} (normalised {pos}) for shape {S}: getitem -> {g}, normalised -> {g2}, tile_shape -> {s}"
+        tuple(s[1]) == (g[1][0].stop - g[1][0].start, g[1][1].stop - g[1][1].start) and \
+        c == ("ok", ((1, 1), tuple(s[1])))
+    return ok, (f"index {idx} (normalised {pos}) for shape {S}: getitem -> {g}, normalised -> {g2}, "
+                f"tile_shape -> {s}, crop (shape, base) -> {c}")
+
+
+def p_block(base, how, block):
+    """tiles[a:b, c:d] is the union of the selected tiles; a selection reaching beyond the grid raises IndexError"""
+    (a, b), (c, d) = block
+    T = mk_tiles(tuple(base), how)
+    S = T.shape.yx
+    var = isinstance(how[0], (tuple, list))
+    got = _err(lambda: T[a:b, c:d])
+    if b > S[0] or d > S[1] or a > S[0] or c > S[1]:
+        return got[0] == "IndexError", f"tiles[{a}:{b},{c}:{d}] on a {S} grid -> {got}"
+    if (a == S[0] or c == S[1]) and not var:
+        return True, "empty selection at the very end of a regular tiling: IndexError by design"
+    if got[0] != "ok":
+        return False, f"tiles[{a}:{b},{c}:{d}] on a {S} grid -> {got}"
+    ry, rx = got[1]
+    B = T.base.yx
+    want = []
+    for (lo, hi, ax) in ((a, b, 0), (c, d, 1)):
+        if lo < hi:
+            first = T[(lo, 0)][0] if ax == 0 else T[(0, lo)][1]
+            last = T[(hi - 1, 0)][0] if ax == 0 else T[(0, hi - 1)][1]
+            want.append((first.start, last.stop))
+        else:
+            st = (T[(lo, 0)][0] if ax == 0 else T[(0, lo)][1]).start if lo < S[ax] else B[ax]
+            want.append((st, st))
+    ok = [(ry.start, ry.stop), (rx.start, rx.stop)] == want
+    return ok, f"tiles[{a}:{b},{c}:{d}] = {(ry, rx)}, tiles give {want}"
 
 
 def p_locate_roundtrip(base, how, pix):
@@ -776,7 +823,7 @@ def p_assembler(chunks, pre, post, present, dtype, fill, roi, seed):
     return True, f"shape={ba.shape} roi={roi}"
 
 
-PREDICATES = {"partition": p_partition, "index": p_index, "locate_roundtrip": p_locate_roundtrip, "crop": p_crop,
+PREDICATES = {"partition": p_partition, "index": p_index, "block": p_block, "locate_roundtrip": p_locate_roundtrip, "crop": p_crop,
               "clip": p_clip, "geoboxtiles": p_geoboxtiles, "assembler": p_assembler}
 
 
@@ -822,6 +869,14 @@ def search(out, tier):
             run("index", base, how, (i, rng.randint(-S[1], S[1] - 1)))
         for j in range(-S[1] - 2, S[1] + 2):
             run("index", base, how, (rng.randint(-S[0], S[0] - 1), j))
+        for a in range(0, S[0] + 2):
+            for b in range(a, S[0] + 3):
+                c = rng.randint(0, S[1] - 1)
+                run("block", base, how, ((a, b), (c, rng.randint(c, S[1]))))
+        for c in range(0, S[1] + 2):
+            for d in range(c, S[1] + 3):
+                a = rng.randint(0, S[0] - 1)
+                run("block", base, how, ((a, rng.randint(a, S[0])), (c, d)))
         blocks = [((r0, r1), (c0, c1)) for r0 in range(S[0]) for r1 in range(r0 + 1, S[0] + 1)
                   for c0 in range(S[1]) for c1 in range(c0 + 1, S[1] + 1)]
         if len(blocks) > 12:
@@ -870,7 +925,7 @@ def search(out, tier):
 def run(out, tier, scratch):
     out.rule = ("correspondence: every operation (construction, shape/base/chunks, [int]/[slice] lookup with index fields "
                 "None and -(S+2)..S+2, tile_shape, locate over pixels -1..N+1, crop, clip_tiles, and the GeoboxTiles "
-                "counterparts) for all regular tilings with base 0..7 (quick) / 0..10 (thorough) and tile 1..base+2 on the "
+                "counterparts) for all regular tilings with base 0..6 (quick) / 0..10 (thorough) and tile 1..base+2 on the "
                 "exhaustive axis, all compositions of totals 0..5 / 0..7 as chunk tuples, zero-sized chunks, random sizes up "
                 "to 2^64, and a malformed stream (zero tile size, int64 overflow, empty selections, out-of-range indices); "
                 "BlockAssembler: random layouts of 1..4 x 1..4 chunks, axis layouts YX/SYX/YXS/SYXS/SSYX, random subsets of "
@@ -886,19 +941,25 @@ def run(out, tier, scratch):
         "a GeoBox is abstracted to its pixel window (offset, shape) in the root grid; the affine algebra of "
         "GeoBox.__getitem__ belongs to C02",
     ]
-    cases = gen_tiles_cases(out, tier)
-    fails, log = core.coq_eval_failures(REQ_T, "case", "check", cases, scratch, shard=400, tag="tiles")
-    detail = ""
-    if fails:
-        detail = "model and implementation differ on: " + " | ".join(cases[i] for i in fails[:5])
-    out.oblige("correspondence:Model.Tiles vs odc.geo.roi Tiles/VariableSizedTiles/clip_tiles + GeoboxTiles",
-               "correspondence", not fails, detail)
-    bcases = gen_block_cases(out, tier)
-    fails, log = core.coq_eval_failures(REQ_B, "case", "check", bcases, scratch, shard=150, tag="blocks")
-    detail = ""
-    if fails:
-        detail = "model and implementation differ on: " + " | ".join(bcases[i] for i in fails[:3])
-    out.oblige("correspondence:Model.Blocks vs odc.geo._blocks.BlockAssembler", "correspondence", not fails, detail)
+    import traceback
+
+    def correspondence(name, gen, req, shard, tag):
+        """a crash of the implementation inside the generator is a broken obligation, and the search still runs"""
+        try:
+            cases = gen(out, tier)
+            fails, _ = core.coq_eval_failures(req, "case", "check", cases, scratch, shard=shard, tag=tag)
+            detail = ""
+            if fails:
+                detail = "model and implementation differ on: " + " | ".join(cases[i] for i in fails[:4])
+            out.oblige(name, "correspondence", not fails, detail)
+        except core.ModelEvalError as e:
+            out.oblige(name, "correspondence", False, "model evaluation failed: " + e.log[-1500:])
+        except Exception:
+            out.oblige(name, "correspondence", False, "case generation failed: " + traceback.format_exc()[-1500:])
+
+    correspondence("correspondence:Model.Tiles vs odc.geo.roi Tiles/VariableSizedTiles/clip_tiles + GeoboxTiles",
+                   gen_tiles_cases, REQ_T, 400, "tiles")
+    correspondence("correspondence:Model.Blocks vs odc.geo._blocks.BlockAssembler", gen_block_cases, REQ_B, 150, "blocks")
     search(out, tier)
 
 
@@ -934,7 +995,7 @@ META = {
              "exhaustive small-domain + random large differential correspondence (vm_compute) and direct property "
              "predicates on the implementation with numpy as the array reference."),
     "note": ("Trusted: Coq kernel; the hand-written models coq/Model/Tiles.v and coq/Model/Blocks.v (validated by "
-             "correspondence on every run: all regular tilings with base 0..7/10 x tile 1..base+2, all compositions of "
+             "correspondence on every run: all regular tilings with base 0..6/10 x tile 1..base+2, all compositions of "
              "0..5/7, zero chunks, sizes up to 2^64, malformed inputs).  Modelled rather than verified / oracle "
              "contracts: numpy int64 asarray (OverflowError outside int64) and cumsum (wraps: wrap64), a[i] on 1-d "
              "arrays (np_at), np.diff, np.searchsorted(right) on sorted offsets as 'number of entries <= v'; Python "
